@@ -35,6 +35,11 @@ type hisVal struct {
 	// Tight suppresses the white space in front of the member
 	Raw   []byte
 	Tight bool
+	// Lead: bytes written in front of a Tight member (they count into its offset);
+	// IdxTail (first member only): if not nil, the exact bytes between the last index pair and
+	// /First — "" puts /First directly behind the last digit of the index
+	Lead    []byte
+	IdxTail *string
 }
 
 func (v hisVal) token() string {
@@ -527,6 +532,9 @@ func (b *hisBuilder) objStmValue(members []hisEntry) (hisVal, []byte) {
 				body.WriteByte(' ')
 			}
 		}
+		if m.Val.Tight {
+			body.Write(m.Val.Lead)
+		}
 		offs[i] = body.Len()
 		if m.Val.Raw != nil {
 			body.Write(m.Val.Raw)
@@ -537,6 +545,10 @@ func (b *hisBuilder) objStmValue(members []hisEntry) (hisVal, []byte) {
 	var head bytes.Buffer
 	for i, m := range members {
 		head.Write(b.rd.join(b.rd.integer(int64(m.Num)), b.rd.integer(int64(offs[i]))))
+		if i == len(members)-1 && members[0].Val.IdxTail != nil {
+			head.WriteString(*members[0].Val.IdxTail)
+			continue
+		}
 		head.WriteByte(' ')
 		head.Write(b.rd.ws(false))
 	}
